@@ -365,11 +365,17 @@ def harness(prog, dag, table, K):
         from dagrt.exec_numpy import NumpyInterpreter
         freg = registry()
         funcs = typed_functions(ex, freg)
-        it = NumpyInterpreter(dag, function_map=funcs)
+        cur = {"phase": dag.initial_phase}
+
+        class It(NumpyInterpreter):
+            # the phase whose statements are running (the interpreter itself only keeps the NEXT phase)
+            def run_single_step(self):
+                cur["phase"] = self.next_phase
+                yield from NumpyInterpreter.run_single_step(self)
+        it = It(dag, function_map=funcs)
         for n, f in typed_builtins().items():
             it.functions[n] = f
         problems = []
-        cur = {"phase": dag.initial_phase}
         store = CheckingStore(ex, table, lambda: cur["phase"], problems)
         it.context = store
         it.eval_mapper.context = store
@@ -384,10 +390,8 @@ def harness(prog, dag, table, K):
                 ex.assume(z3.And(store[n]._num().t >= 0, store[n]._num().t <= 2))
         try:
             nev = 0
-            cur["phase"] = it.next_phase
-            for ev in it.run(max_steps=K):
+            for ev in it.run(max_steps=max(K, len(dag.phases))):       # every phase of a cyclic multi-phase program runs
                 nev += 1
-                cur["phase"] = it.next_phase
                 if nev > 16:
                     break
         except (symx.Abort, symx.Unmodelled, symx.BudgetExceeded):
@@ -685,12 +689,35 @@ def typed_corpus():
         pg.P1([["assign", "<state>a", ADD(A, DT), []], ["assign", "acc", C(0), []],
                ["assign", "acc", ADD(V("acc"), MUL(V("i"), A)), [["i", C(0), C(3)]]], ["assign", "half", ["/", V("acc"), C(2)], []]]),
     ]
+    # two phases that use the SAME local name with different kinds (array | flag | user type in one, real scalar in the other)
+    def two(ops_p, ops_q):
+        return {"phases": [{"name": "p", "next": "q", "ops": ops_p}, {"name": "q", "next": "p", "ops": ops_q}], "initial": "p"}
+    q_scalar = [["assign", "tmp", MUL(DT, C(2)), []], ["assign", "<state>a", ADD(A, V("tmp")), []]]
+    progs += [
+        two([["assign", "<state>a", ADD(A, DT), []], ["assign", "tmp", ["call", "<builtin>array", [C(3)], {}], []],
+             ["assign", ["sub", "tmp", V("i")], ["/", V("i"), C(3)], [["i", C(0), C(3)]]],
+             ["assign", "<state>a", ADD(A, ["sub", V("tmp"), C(1)]), []]], q_scalar),
+        two([["assign", "<state>a", ADD(A, DT), []], ["assign", "tmp", ["cmp", "<", A, C(0)], []],
+             ["if", ["expr", V("tmp")], [["assign", "<state>a", ADD(A, C(1)), []]], None]], q_scalar),
+        two([["assign_call", ["<state>u"], "<func>f", [T, U], {}], ["assign", "tmp", F(T, U), []],
+             ["assign", "<state>u", ADD(U, V("tmp")), []], ["assign", "<state>a", ADD(DT, DT), []]], q_scalar),
+        two(q_scalar, [["assign", "<state>a", ADD(A, DT), []], ["assign", "tmp", V("i"), [["i", C(0), C(3)]]],
+                       ["assign", "arr", ["call", "<builtin>array", [C(3)], {}], []], ["assign", ["sub", "arr", V("tmp")], A, []]]),
+    ]
     for i, p in enumerate(progs):
         p["name"] = "typed_%d" % i
     return progs
 
 
 def random_typed(rng, idx):
+    if rng.random() < 0.3:
+        # two phases generated independently over the same local names (x, y, z, fl may get different kinds in each)
+        return {"name": "trand%d" % idx, "initial": "p",
+                "phases": [{"name": "p", "next": "q", "ops": _random_typed_ops(rng)}, {"name": "q", "next": "p", "ops": _random_typed_ops(rng)}]}
+    return dict(pg.P1(_random_typed_ops(rng)), name="trand%d" % idx)
+
+
+def _random_typed_ops(rng):
     defined = {"<t>": "S", "<dt>": "S", "<state>a": "S"}
     ops = [["assign", "<state>a", ADD(A, DT), []]]
     n = rng.randint(2, 6)
@@ -719,7 +746,7 @@ def random_typed(rng, idx):
             defined[tgt] = "S"
         else:
             ops.append(["assign", "fl", ["cmp", rng.choice(["<", ">", "=="]), V(rng.choice(s)), V(rng.choice(s))], []])
-    return dict(pg.P1(ops), name="trand%d" % idx)
+    return ops
 
 
 def selftests():
